@@ -605,4 +605,58 @@ theorem leaf_grad_exact_gaussNone (d x : Vec ℝ) (j : Nat) (hj : j < d.length) 
   rw [hg]
   exact ptwLeaf_val_hasDerivAt (d.length) (fun k y => gaussE1 y (at1 d k)) _ x j hj hjx (E_hasDerivAt_gauss1 _ _)
 
+/-! ### the remaining `value = -log pdf + const` statements -/
+
+/-- no inverse covariance: unit-variance normal density of the datum `d` with mean `x`, up to `½ log 2π` -/
+theorem value_up_to_const_gauss1 (x d : ℝ) : gaussE1 x d = -Real.log (Real.exp (-((d - x) ^ 2 / 2))) := by
+  rw [Real.log_exp]; unfold gaussE1; ring
+
+/-- variable covariance (real): `-log` of the normal density of the residual `r` with inverse variance `i`, up to `½ log 2π` -/
+theorem value_up_to_const_varcov (r i : ℝ) (hi : 0 < i) :
+    varcovE r i = -Real.log (Real.sqrt i * Real.exp (-(i * r ^ 2 / 2))) := by
+  rw [Real.log_mul (Real.sqrt_pos.mpr hi).ne' (Real.exp_pos _).ne', Real.log_exp, Real.log_sqrt hi.le]
+  simp only [varcovE, TranscReal.log_eq]
+  ring
+
+/-- variable covariance (complex residual `a + ib`): `-log` of the product of two such densities (`sqrt i · sqrt i = i`) -/
+theorem value_up_to_const_varcovc (a b i : ℝ) (hi : 0 < i) :
+    varcovcE a b i = -Real.log (i * Real.exp (-(i * (a ^ 2 + b ^ 2) / 2))) := by
+  rw [Real.log_mul hi.ne' (Real.exp_pos _).ne', Real.log_exp]
+  simp only [varcovcE, TranscReal.log_eq]
+  ring
+
+theorem value_up_to_const_sgammac (a b x : ℝ) (hx : 0 < x) :
+    sgammacE a b x = -Real.log (x * Real.exp (-(x * (a ^ 2 + b ^ 2) / 2))) := by
+  rw [Real.log_mul hx.ne' (Real.exp_pos _).ne', Real.log_exp]
+  simp only [sgammacE, TranscReal.log_eq]
+  ring
+
+/-- the Hamiltonian adds the standard-normal prior `½x²`: value and gradient of the list model -/
+theorem tree_hamiltonian_grad (e : Node ℝ) (x : Vec ℝ) (j : Nat) (hj : j < x.length) :
+    at1 ((Node.ham e).eval x).grad j = at1 (e.eval x).grad j + at1 x j := by
+  show at1 (tab x.length fun j => at1 (e.eval x).grad j + 1 / 2 * (2 * at1 x j)) j = _
+  rw [at1_tab, if_pos hj]; ring
+
+/-- `c·lh` in the list model: value, gradient and (for `c ≥ 0`) metric are scaled by `c` -/
+theorem tree_scale (c : ℝ) (hc : 0 ≤ c) (e : Node ℝ) (x : Vec ℝ) (i j : Nat) :
+    ((Node.scale c e).eval x).val = c * (e.eval x).val
+      ∧ at2 ((Node.scale c e).eval x).met i j = c * at2 (e.eval x).met i j := by
+  refine ⟨rfl, ?_⟩
+  show at2 ((e.eval x).met.map fun row => row.map (Real.sqrt c * Real.sqrt c * ·)) i j = _
+  rw [at2_map_map (Real.sqrt c * Real.sqrt c * ·) (by simp), Real.mul_self_sqrt hc]
+
+/-- `lh₁ + lh₂` in the list model: metrics add entry by entry -/
+theorem tree_add_metric (a b : Node ℝ) (x : Vec ℝ) (i j : Nat) (hi : i < x.length) (hj : j < x.length) :
+    at2 ((Node.add a b).eval x).met i j = at2 (a.eval x).met i j + at2 (b.eval x).met i j := by
+  show at2 (tab2 x.length x.length fun i j => at2 (a.eval x).met i j + at2 (b.eval x).met i j) i j = _
+  rw [at2_tab2, if_pos ⟨hi, hj⟩]
+
+/-- `lh @ linear` in the list model: metric `Jᵀ M J`, entry by entry -/
+theorem tree_lin_metric (rows : Nat) (A : Mat ℝ) (e : Node ℝ) (x : Vec ℝ) (i j : Nat) (hi : i < x.length) (hj : j < x.length) :
+    at2 ((Node.lin rows A e).eval x).met i j
+      = ∑ k ∈ Finset.range (e.eval (matVec rows x.length A x)).n, at2 A k i *
+          ∑ l ∈ Finset.range (e.eval (matVec rows x.length A x)).n, at2 (e.eval (matVec rows x.length A x)).met k l * at2 A l j := by
+  show at2 (sandwich _ x.length A _) i j = _
+  rw [at2_sandwich _ _ _ _ _ _ hi hj]
+
 end NiftyVerif.C11
